@@ -62,6 +62,8 @@ type Cmd struct {
 type Invocation struct {
 	Cmd *Cmd
 	Ctx context.Context // cancelled when the command is killed
+	// StartStep is the scheduler step at which the command was started (fork time).
+	StartStep int
 	// Sleep waits d on the fake clock; it returns false if the command was killed meanwhile.
 	Sleep func(d time.Duration) bool
 }
@@ -151,6 +153,9 @@ func (c *Cmd) Start() error {
 	c.done = make(chan error, 1)
 	killCtx, kill := context.WithCancel(context.Background())
 	inv := &Invocation{Cmd: c, Ctx: killCtx}
+	if s := simrt.S; s != nil {
+		inv.StartStep = s.Steps()
+	}
 	inv.Sleep = func(d time.Duration) bool {
 		if d <= 0 {
 			simrt.Yield("simexec:sleep0")
